@@ -5,6 +5,7 @@ package zzverif
 
 import (
 	"fmt"
+	"reflect"
 	"strconv"
 
 	"github.com/cockroachdb/redact"
@@ -183,6 +184,13 @@ func c14Operand(k int, s string) interface{} {
 		return []string{s}
 	case 10:
 		return nil
+	case 12:
+		return reflect.ValueOf([]byte(s))
+	case 13:
+		// a reflect.Value of Kind Interface holding nil
+		return reflect.ValueOf(struct{ I interface{} }{nil}).Field(0)
+	case 14:
+		return reflect.ValueOf([]byte(nil))
 	case 11:
 		// a typed nil pointer whose Format method panics on the nil
 		// receiver: fmt reports <nil>, with or without a wrapper
@@ -243,6 +251,35 @@ func H_c14w(p []int) {
 	vAssert(bytesEq([]byte(fmt.Sprintf(d, fwdFmt{x})), direct), "C14/forwarder-as-x")
 	out := []byte(redact.Sprintf(d, fwdFmt{x}))
 	vAssert(bytesEq(strip(out), esc(direct)), "C14/forwarder-under-redact")
+	// MakeFormat on redact's own printer, before and after the SafeFormat
+	// method has printed something through it
+	ra, rb := &mfRec{}, &mfRec{}
+	_ = redact.Sprintf(d, sfMakeFmt{ra, false})
+	_ = redact.Sprintf(d, sfMakeFmt{rb, true})
+	vAssert(ra.called == 1 && rb.called == 1, "C14/safeformat-called")
+	vAssert(ra.justV == rb.justV && ra.f == rb.f, "C14/makeformat-unaffected-by-earlier-print")
+}
+
+type mfRec struct {
+	called int
+	justV  bool
+	f      string
+}
+
+// sfMakeFmt calls MakeFormat on the SafePrinter it is given, optionally
+// after printing a label through it.
+type sfMakeFmt struct {
+	rec   *mfRec
+	label bool
+}
+
+func (x sfMakeFmt) SafeFormat(p redact.SafePrinter, verb rune) {
+	if x.label {
+		p.Printf("k%d=", 1)
+		p.Print(redact.Safe("l"))
+	}
+	x.rec.called++
+	x.rec.justV, x.rec.f = redact.MakeFormat(p, verb)
 }
 
 func init() {
